@@ -64,7 +64,7 @@ static void wait_reply(void)
   for (;;) {
     int s = __atomic_load_n(&sl->state, __ATOMIC_SEQ_CST);
     if (s == VK_S_REPLY) break;
-    if (++spins < 40) { __builtin_ia32_pause(); continue; }
+    if (++spins < 2) { continue; }
     futex_wait(&sl->state, s);
   }
   if (sl->die) rawexit(0);
